@@ -284,6 +284,13 @@ def gen_net(rng, idx, profile):
 
         return gen_ssmask.c01_net(rng, idx, make_builder)
     if profile == "shared":
+        if (idx // len(PROFILES)) % 2 == 1:
+            # every other network of the profile: the shared-filter families of harness/netgen_shared.py (one per weight re-laying
+            # rewrite, users differing in the parameter the rewrite reads), the axes in turn
+            import netgen_shared
+
+            ax = netgen_shared.AXES[(idx // (2 * len(PROFILES))) % len(netgen_shared.AXES)]
+            return netgen_shared.build(rng, idx, ax, small=True, make_b=make_builder, name=f"c01_shared_{idx}")
         return gen_shared(rng, idx)
     if profile == "softmax":
         return gen_softmax(rng, idx)
@@ -671,6 +678,24 @@ def corpus_net(rng, name):
             b.net.ops.append(netgen.Op("TRANSPOSE_CONV", [os_, f.inputs[1], x, f.inputs[2]], [y1], ("TransposeConvOptions", dict(
                 Padding=0, StrideW=2, StrideH=2))))
         return b.finish([y0, y1])
+    if name == "known_shared_fold_same_valid":
+        # regression network of the class of seeded change C08-r5m2 (nothing known about the unchanged compiler): two CONV_2D
+        # with stride width 4 on ONE 1x9 filter and bias, SAME (pad_left 2) and VALID; both are folded by 4 to a 1x3 kernel over
+        # 12 channels, the SAME one with two zero columns in front. Their clones must not share an encoded weight stream.
+        import netgen_shared
+
+        return netgen_shared.build(rng, 0, "stride_ge4_same_vs_valid", n_ops=2, dtype="int8", per_channel=False, small=True,
+                                   make_b=make_builder, name=name, kernel=(1, 9), stride_w=4, ic=3, oc=4, hw=(3, 16))
+    if name in ("known_tconv_stride1_same_even", "known_tconv_stride1_valid", "known_pad_folded_conv"):
+        b = make_builder(rng, name, "int8")
+        if name == "known_pad_folded_conv":
+            # padded width 16, stride width 6: folded by 2 (final stride 3, kernel 2x8 -> 2x4); pads <= half of the folded kernel
+            x = b.input([1, 4, 12, 1], scale=0.05, zp=3)
+            return b.finish([b.conv(b.pad(x, [[0, 0], [1, 0], [2, 2], [0, 0]]), 4, (2, 8), (1, 6), (1, 1), "VALID", act=0, per_channel=False)])
+        x = b.input([1, 4, 5, 1], scale=0.05, zp=3)
+        if name == "known_tconv_stride1_same_even":
+            return b.finish([b.transpose_conv(x, 4, (2, 2), (1, 1), "SAME")])
+        return b.finish([b.transpose_conv(x, 4, (3, 3), (1, 1), "VALID")])
     if name == "known_concat_batch_axis":
         b = make_builder(rng, name, "int8")
         x = b.input([1, 3, 3, 5], scale=0.05, zp=3)
@@ -1011,6 +1036,18 @@ def wide_stride_avgpool(o):
                for kind, ins, outs, faf, pad, stride in o.get("src_graph") or [])
 
 
+def tconv_stride1_outputs(o):
+    """outputs of the TRANSPOSE_CONV operators with stride 1x1 whose padding is not that of a convolution with the same
+    attributes: VALID with a kernel above 1x1, SAME with an even kernel height or width"""
+    ti, strides, res = o.get("src_tinfo") or [], o.get("src_strides") or [], set()
+    for n_op, (kind, ins, outs, faf, pad, stride) in enumerate(o.get("src_graph") or []):
+        if kind == "TRANSPOSE_CONV" and n_op < len(strides) and tuple(strides[n_op]) == (1, 1) and len(ti[ins[1]][0]) == 4:
+            kh, kw = ti[ins[1]][0][1:3]
+            if (pad == 1 and (kh > 1 or kw > 1)) or (pad == 0 and (kh % 2 == 0 or kw % 2 == 0)):
+                res.add(outs[0])
+    return res
+
+
 def classify_failure(o, ans):
     """stable key of an open known finding (see known_findings.txt), or None. Only the structure of the source network
     is consulted; the verdict itself is Lean's."""
@@ -1021,6 +1058,19 @@ def classify_failure(o, ans):
 
         if gen_ssmask.out_of_range((o.get("desc") or {}).get("desc")):
             return "strided-slice-out-of-range-begin-end-not-clamped"
+    if ans.endswith("verdict=fail"):
+        # TRANSPOSE_CONV with stride 1x1: every output that differs is the output of such an operator
+        t1 = tconv_stride1_outputs(o)
+        failing = {int(t) for t, nbad in re.findall(r"\| t(\d+) cls=\d maxdiff=\d+ bad=(\d+)", ans) if int(nbad) > 0}
+        if t1 and failing and failing <= t1:
+            return "transpose-conv-stride-1-padded-like-a-convolution"
+    if "weights_do_not_fit_the_IFM_depth" in ans:
+        # PAD -> VALID CONV_2D with a stride width above 3: the PAD is replaced by hardware padding after the width was folded
+        strides = o.get("src_strides") or []
+        prod = {outs[0]: kind for kind, ins, outs, faf, pad, stride in g}
+        for n_op, (kind, ins, outs, faf, pad, stride) in enumerate(g):
+            if kind == "CONV_2D" and pad == 1 and n_op < len(strides) and strides[n_op][1] >= 4 and prod.get(ins[0]) == "PAD":
+                return "pad-before-folded-strided-conv-replaced-by-hardware-padding"
     if "weights_do_not_fit_the_IFM_depth" in ans:
         # AVERAGE_POOL_2D with a width stride >= 4 lowered to a convolution with one input channel
         shapes, strides = o.get("src_shapes") or [], o.get("src_strides") or []
@@ -1076,8 +1126,6 @@ def classify_failure(o, ans):
                     return "int16-lrelu-mul-max-rounds-each-branch"
     # (keys of the second C01 worker; the wide-stride average pool and the dilation-above-two zero fill are the same defects as
     # the two keys above, reached when the more specific conditions above do not hold)
-    if (ans.endswith("verdict=fail") or ans.startswith("err:out:")) and wide_stride_avgpool(o):
-        return "wide-stride-avgpool-converted-with-one-input-channel-kernel"
     if ans.endswith("verdict=fail") and mean_over_unit_axes(o):
         return "mean-over-unit-axes-drops-requantisation"
     if ans.endswith("verdict=fail") and protected_tensor_reshaped_into_elementwise(o):
@@ -1094,6 +1142,10 @@ def classify_failure(o, ans):
             return k + "-then-reshape-lowered-with-reshaped-ofm-shape"
     if ans.endswith("verdict=fail") and ofm_batch_above_one(o):
         return "ofm-batch-above-one-accepted-on-npu"
+    # (repaired: 50ebf72; asked last so that it does not shadow a finding that is still open in the same network, e.g. network 1946
+    # of seed 2: PRELU -> RESHAPE ... -> AVERAGE_POOL_2D stride (1, 5))
+    if (ans.endswith("verdict=fail") or ans.startswith("err:out:")) and wide_stride_avgpool(o):
+        return "wide-stride-avgpool-converted-with-one-input-channel-kernel"
     if not (ans.endswith("verdict=fail") or "read_outside_region" in ans) or o.get("dtype") != "int16":
         return None
     consumers = {}
@@ -1156,7 +1208,8 @@ def main():
                                                               "mean_unit_axes", "concat_batch_axis",
                                                               "resize_reshape", "mean_reshape", "widepool_reshape",
                                                               "transpose_relu", "sqdiff_reshape", "dilation3_uint8", "shared_dilation3", "shared_tconv",
-                                                              "prelu_reshape", "transpose_lut_mul", "protected_reshape_inplace")]
+                                                              "prelu_reshape", "transpose_lut_mul", "protected_reshape_inplace",
+                                                              "tconv_stride1_same_even", "tconv_stride1_valid", "pad_folded_conv", "shared_fold_same_valid")]
     # round-5 families first (so that the wall-clock budget of the quick tier never cuts them)
     jobs += [(ck.seed, i, "ssmask", k_inputs) for i in range(2400 if ck.thorough else 300)]
     jobs += [(ck.seed, i, PROFILES[i % len(PROFILES)], k_inputs) for i in range(n)]
